@@ -16,7 +16,7 @@ import zlib
 from .. import world as W
 from .. import scen as S
 from .. import msgstruct
-from ..core import pmap
+from ..core import pmap, room
 from ..puppet import Puppet, NotQueueable
 from ..world import SEAMS, Pair, World, Meter
 from tlslite import errors as E
@@ -159,7 +159,8 @@ def case(item):
             sig, fails = judge(pair2, out2, victim, m2, base_calls, rx)
             rec["sigs"].add((tok, sig))
             for (k, text) in fails:
-                if len(rec["fails"]) < 60:
+                if room(rec.setdefault("pc", {}), (tok, sorted(k.items())),
+                        4):
                     k = dict(k)
                     k["msg"] = tok
                     rec["fails"].append((k, text, label))
@@ -179,11 +180,13 @@ def case(item):
                 sig, fails = judge(pair2, out2, victim, m2, base_calls, rx)
                 rec["sigs"].add((tok, "rewrite", sig))
                 for (k, text) in fails:
-                    if len(rec["fails"]) < 60:
+                    if room(rec.setdefault("pc", {}),
+                            (tok, sorted(k.items())), 4):
                         k = dict(k)
                         k["msg"] = tok
                         rec["fails"].append((k, text, "rewrite:" + label))
     rec["sigs"] = sorted(rec["sigs"], key=repr)
+    rec.pop("pc", None)
     return rec
 
 
@@ -402,6 +405,36 @@ def semantic_cases():
         for sel in ("TLS1.2-ECDHE_RSA-GCM", "TLS1.3-RSA", "TLS1.3-PSK",
                     "TLS1.0-SRP", "TLS1.2-ECDHE_RSA-tickets"):
             C.append(("ch-ext-" + nm, sel, "S", "CH", ch_ext_raw(t, body)))
+
+    # the same kind of extension damage in a ClientHello whose legacy
+    # version field is lower than TLS 1.2 (two fields changed together)
+    def with_legacy(vb, m):
+        def f(data):
+            d = m(data)
+            if d is None:
+                return None
+            d = bytearray(d)
+            d[4:6] = vb
+            return bytes(d)
+        return f
+    for nm, t, body in (
+            ("versions-nobody", 43, b""), ("versions-empty", 43, b"\x00"),
+            ("versions-odd", 43, b"\x03\x03\x04\x03"),
+            ("versions-only-13", 43, b"\x02\x03\x04"),
+            ("keyshare-nobody", 51, b""),
+            ("keyshare-empty-list", 51, b"\x00\x00"),
+            ("pskmodes-nobody", 45, b""), ("pskmodes-empty", 45, b"\x00"),
+            ("groups-nobody", 10, b""), ("sigalgs-nobody", 13, b""),
+            ("ecpf-nobody", 11, b""), ("cookie-nobody", 44, b""),
+            ("alpn-nobody", 16, b""), ("sni-nobody", 0, b""),
+            ("hb-nobody", 15, b""), ("rsl-nobody", 28, b""),
+            ("compress-cert-nobody", 27, b""),
+            ("sigalgs-cert-nobody", 50, b"")):
+        for vb in (b"\x03\x03", b"\x03\x02", b"\x03\x01", b"\x03\x00"):
+            for sel in ("TLS1.3-RSA", "TLS1.2-ECDHE_RSA-GCM",
+                        "TLS1.0-DHE_RSA"):
+                C.append(("ch-legacy%s-ext-%s" % (vb.hex(), nm), sel, "S",
+                          "CH", with_legacy(vb, ch_ext_raw(t, body))))
 
     # duplicate extension in ClientHello
     def ch_dup_ext(data):
@@ -878,9 +911,10 @@ def post_record_case(item):
             "first-byte") else "first-byte"
         rec["sigs"].add((kindname, sig))
         for (k, f) in fails:
-            if len(rec["fails"]) < 40:
+            if room(rec.setdefault("pc", {}), sorted(k.items()), 4):
                 rec["fails"].append((k, f, cname))
     rec["sigs"] = sorted(rec["sigs"], key=repr)
+    rec.pop("pc", None)
     return rec
 
 
